@@ -1,10 +1,11 @@
 pid = "C14"
 header = """C14 - Homogeneous scores scale with their degree and reduce to the named special cases.
    World R, about the GENERATED gen_*_spo (gen/Gen_scoring.v).  h = degree, a = level.
-   Rpower c h = c^h for c > 0 (h = 0 gives 1: scale invariance)."""
+   Rpower c h = c^h for c > 0 (h = 0 gives 1: scale invariance).  Limits are Coquelicot is_lim (value at the point ignored)."""
 imports = """From Coq Require Import Reals List Bool.
 Import ListNotations.
-From MD Require Import lib.NumpyR spec.Scores theory.Powers gen.Gen_ident gen.Gen_scoring proofs.ScoreProps proofs.ScoreGen."""
+From Coquelicot Require Import Coquelicot.
+From MD Require Import lib.NumpyR spec.Scores theory.Powers gen.Gen_ident gen.Gen_scoring proofs.ScoreProps proofs.ScoreGen proofs.Consistency proofs.ScoreLimits."""
 opens = "Open Scope R_scope."
 items = [
  ("hes_homogeneous", "g_hes_homogeneous", "S(c y, c z) = c^h S(y, z) for every c > 0 and every accepted pair"),
@@ -16,4 +17,13 @@ items = [
  ("pinball", "g_pinball", None),
  ("hes_half_symmetric", "g_hes_half", "at level 1/2 the asymmetric scores reduce to the symmetric ones"),
  ("hqs_half_symmetric", "g_hqs_half", None),
+ ("general_formula", "breg_general", "the closed forms at degrees 1 and 0 are the limits of the general formula (hes_general / hqs_general = the expression the code evaluates away from 0 and 1)"),
+ ("limit_degree_1", "hes_limit_degree_1", None),
+ ("limit_degree_0", "hes_limit_degree_0", None),
+ ("closed_form_1", "breg_1", None),
+ ("closed_form_0", "breg_0", None),
+ ("quantile_limit_degree_0", "hqs_limit_degree_0", None),
+ ("score_continuous_in_degree_at_1", "hes_val_limit_degree_1", "hence the scores are continuous in the degree at 1 and 0"),
+ ("score_continuous_in_degree_at_0", "hes_val_limit_degree_0", None),
+ ("quantile_score_continuous_in_degree_at_0", "hqs_val_limit_degree_0", None),
 ]
